@@ -7,7 +7,7 @@ from vx.unit import Unit
 from vx.extract import C
 from .common import replay_scripts
 
-PROPS = ['C10', 'C19', 'C05']
+PROPS = ['C10', 'C19', 'C05', 'C01']
 HEADER = 'use vstd::prelude::*;\nverus! {\n'
 FOOTER = '\n} // verus!\nfn main() {}\n'
 INV = 'inner_only(%s.cross_state.here_state, %s.cross_state.current_here_tags@)'
@@ -23,7 +23,7 @@ def common(f, me):
 
 
 def build(repo, findings):
-    u = Unit('U27d', 'a nested construct leaves the here-documents pending on its line alone, and is read without them', repo, PROPS, safety_props=[])
+    u = Unit('U27d', 'a nested construct leaves the here-documents pending on its line alone, and is read without them', repo, PROPS, safety_props=['C19', 'C01'])
     src = u.source('brush-parser/src/tokenizer.rs')
     for v in (r'\n\s*UnterminatedExpansion,', r'\n\s*UnterminatedVariable,'):
         src.require_text(v, 'projected variant of TokenizerError')
